@@ -412,8 +412,13 @@ func genPatch(t *rapid.T, c Case, supplementary bool) (Case, bool) {
 		case "u32":
 			p = u32(rapid.SampledFrom([]string{"UserID", "PrimaryGroupID", "UserAccountControl", "SubAuthStatus", "FailedILogonCount", "Reserved1.0", "Reserved1.1", "Reserved3"}).Draw(t, "field"), 1)
 		case "userflags":
-			// the bits that say whether ExtraSids / ResourceGroupIds are populated stay as they are
-			p = []Patch{{Field: "UserFlags", Value: uint64(li.UserFlags&0x220 | rapid.Uint32().Draw(t, "flags")&^0x220)}}
+			// mostly the bits that say whether ExtraSids / ResourceGroupIds are populated stay as they are; now and then
+			// they take any value: the SIDs a PAC encodes are reported whatever those two bits say
+			keep := uint32(0x220)
+			if rapid.IntRange(0, 2).Draw(t, "free-dh-bits") == 0 {
+				keep = 0
+			}
+			p = []Patch{{Field: "UserFlags", Value: uint64(li.UserFlags&keep | rapid.Uint32().Draw(t, "flags")&^keep)}}
 		case "sessionkey":
 			p = u32("UserSessionKey", 4)
 		case "rid":
@@ -618,7 +623,7 @@ func TestProp(t *testing.T) {
 	})
 
 	// ---- 2. attribute metamorphosis -------------------------------------------------------
-	r.Rule("attr (rapid + enumerated): a valid presentation with one value of the logon-information buffer overwritten at the offset the reference reader computed (8 FILETIMEs incl. 0 / never / full range, UserId, PrimaryGroupId, counts, flags outside the D/H bits, session key, any group RID or attributes, any sub-authority of the domain / extra / resource SIDs, any name character replaced by a BMP character other than U+0000), or of client info (ClientId, name character) or UPN_DNS_INFO (UPN / DNS character), then re-signed: must be accepted and every reported attribute, including the changed one, must equal the reference decoding; the harness checks that the patch changes exactly one reference field. Enumerated: every fixed field of each captured logon buffer x {0, 1, all ones, never, seeded random}")
+	r.Rule("attr (rapid + enumerated): a valid presentation with one value of the logon-information buffer overwritten at the offset the reference reader computed (8 FILETIMEs incl. 0 / never / full range, UserId, PrimaryGroupId, counts, flags (the D/H bits, which say whether ExtraSids / ResourceGroupIds are populated, mostly left alone but also cleared, set and inverted: the encoded SIDs are reported whatever they say), session key, any group RID or attributes, any sub-authority of the domain / extra / resource SIDs, any name character replaced by a BMP character other than U+0000), or of client info (ClientId, name character) or UPN_DNS_INFO (UPN / DNS character), then re-signed: must be accepted and every reported attribute, including the changed one, must equal the reference decoding; the harness checks that the patch changes exactly one reference field. Enumerated: every fixed field of each captured logon buffer x {0, 1, all ones, never, seeded random}")
 	attrRun := func(check string, c Case, rt *rapid.T) {
 		if err := patchChangesOneField(c); err != nil {
 			record(check, c, evid.Fail("harness:patch", "%v", err), "harness", nil, rt)
@@ -651,6 +656,16 @@ func TestProp(t *testing.T) {
 				c.Bufs[0].Patch = []Patch{{Field: f, Value: v}}
 				attrRun("attr", c, nil)
 			}
+		}
+		// UserFlags with the D (ExtraSids populated) and H (ResourceGroupIds populated) bits cleared, set and inverted
+		for vi, v := range []uint64{0, 0x20, 0x200, 0x220, 0xfffffddf, 0xffffffff} {
+			alg := pacfmt.SigTypes[vi%len(pacfmt.SigTypes)]
+			c := Case{Kind: "attr", SrvAlg: alg, KDCAlg: alg, T: Tamper{Kind: "none"},
+				SrvKey: hex.EncodeToString(ref.RandomKey(ref.ETypeForCksum(alg), kgen.DetBytes(r.Seed(), "c19/attr/uf/k", 32))),
+				KDCKey: hex.EncodeToString(ref.RandomKey(ref.ETypeForCksum(alg), kgen.DetBytes(r.Seed(), "c19/attr/uf/kk", 32)))}
+			c.Bufs = append(append([]Buf{}, base...), Buf{Src: "sig:server"}, Buf{Src: "sig:kdc"})
+			c.Bufs[0].Patch = []Patch{{Field: "UserFlags", Value: v}}
+			attrRun("attr", c, nil)
 		}
 	}
 
@@ -739,7 +754,30 @@ var enumBases = map[string][]Buf{
 	"trust": {{Src: "trust:logon"}, {Src: "win2k:client"}, {Src: "claims:multi"}, {Src: "attrs"}, {Src: "sig:server"}, {Src: "sig:kdc"}},
 }
 
+// enumDes3Key: the service's key is a des3 key. [MS-PAC] defines no des3 signature type, so whatever the server
+// signature declares and holds - the des3 checksum type 12 with its proper HMAC, with zeros, with random octets, or one
+// of the PAC types - such a PAC has no valid server signature.
+func enumDes3Key(r *evid.Run, run runFn) {
+	for bi, base := range []string{"win2k", "ms", "trust"} {
+		lbl := fmt.Sprintf("c19/des3/%s", base)
+		sk := hex.EncodeToString(ref.RandomKey(ref.DES3, kgen.DetBytes(r.Seed(), lbl+"/sk", 32)))
+		kk := hex.EncodeToString(ref.RandomKey(ref.AES128SHA1, kgen.DetBytes(r.Seed(), lbl+"/kk", 32)))
+		n := len(enumBases[base])
+		for _, d := range []int32{12, 15, 16, -138, 19, 20} {
+			for ti, tk := range []string{"none", "sig-zero", "sig-random"} {
+				c := Case{Kind: "layout", Bufs: append([]Buf{}, enumBases[base]...), SrvAlg: 12, KDCAlg: 15, SrvKey: sk, KDCKey: kk, T: Tamper{Kind: tk, Bit: 1 + bi + ti}}
+				if d != 12 {
+					dd := d
+					c.Bufs[n-2].Declared = &dd
+				}
+				run("enum", c, nil)
+			}
+		}
+	}
+}
+
 func enumStructure(r *evid.Run, run runFn) {
+	enumDes3Key(r, run)
 	type job struct {
 		base     string
 		srv, kdc int32
